@@ -15,7 +15,10 @@ Legs
              same call in a fresh interpreter (forked from a process that has only imported `pde`; a subset in a
              really new interpreter through harness/common/isolated.py).
   heap       histories {write, relink by a collection, assign `_data_full`, interpolate, rate of a PDE using the
-             field as a constant} against `hrun`/`href`.
+             field as a constant} against `hrun`/`href`; heap:jit the same around the numba-COMPILED rate
+             (`make_pde_rhs(state, "numba")` with the JIT enabled), whose model carries the copy numba freezes.
+  Every monitor result is classified by a narrow key; findings E (KEY_FROZEN) and H (KEY_UNINIT, KEY_UNINIT_FIELD)
+  are genuine defects of the unchanged tree (notes/C04.md, notes/proposed_fixes/).
 """
 import copy
 import itertools
@@ -46,13 +49,16 @@ REQUIRED_THEOREMS = [
     "kwargs_method_cache_sound",
 ]
 RULE = ("pairs: a seed-derived base request (grid of every class, operator, per-side boundary conditions of every "
-        "constant class incl. normal/mixed/periodic, dtype, kwargs) and a variant that changes one or two attributes "
-        "(class with equal value, side, axis, rank, normal flag, homogeneous vs per-face array with equal entries, "
-        "value/const numbers incl. -1/-2, 0.0/-0.0 and equal-bytes int/float, flip sign, grid class with equal bounds, "
-        "bounds, shape, periodicity, operator, kwargs order/values, dtype spelling); a case is distinct by the two "
+        "constant class incl. normal/mixed/periodic - normal_* with EVERY operator of rank >= 1 -, dtype, kwargs) and a variant "
+        "that changes one or two attributes (class with equal value, side, axis, rank, normal flag, homogeneous vs per-face array "
+        "with equal entries, value/const numbers incl. -1/-2, 0.0/-0.0 and equal-bytes int/float, flip sign, grid class with equal "
+        "bounds, bounds, shape, periodicity, operator, kwargs order/values, dtype spelling); a case is distinct by the two "
         "requests and non-trivial if both requests can be built and at least one attribute differs.  histories: "
-        "3-9 operations over 1-2 grids and 1-3 fields drawn from the same vocabulary; distinct by the operation list, "
-        "non-trivial if the last call touches a cache that an earlier operation filled")
+        "3-12 operations over 1-2 grids and 1-4 fields drawn from the same vocabulary (operators, ghost-cell setters, "
+        "interpolation, PDEs with numeric/field constants, two-variable PDEs on collections, argument objects shared between "
+        "requests, one PDE object on twin grids of different class, evaluate, solve); distinct by the operation list, "
+        "non-trivial if the last call touches a cache that an earlier operation filled.  heap / heap:jit: 3-14 events on one "
+        "field {write, relink, assign, interpolate, interpreted rate, compiled rate}")
 ASSUMPTIONS = [
     "the builtin hash of str/bytes/tuple/frozenset is idealised as injective (chance collisions of the 64-bit hash "
     "are excluded); its systematic coincidences (numeric hash modulo 2^61-1, hash(-1)=-2, None, '' and b'', ASCII "
